@@ -26,3 +26,4 @@ INVARIANT StepsPostselectOK
 INVARIANT StepsCopyOK
 INVARIANT WalkOK
 INVARIANT Drift_Measure
+INVARIANT Drift_FromStab
